@@ -99,8 +99,10 @@ func (f *fakeServer) Subscribe(stream pb.GNMI_SubscribeServer) error {
 	}
 	switch sess.Outcome {
 	case "error":
+		f.onEvent(target, "end", n, 0) // the target ends the stream (logged before the client can notice)
 		return status.Error(codes.Unavailable, "scripted failure")
 	case "eof":
+		f.onEvent(target, "end", n, 0)
 		return nil
 	default: // silent / long
 		<-stream.Context().Done()
